@@ -125,9 +125,41 @@ def rule_range_bounds(run):
                             run.ob("%s|range(idx_context)|upper|ctx+1" % it.def_, ok and helper is not None and pe[1].local, c.sp,
                                    "upper bound of the context index is Excluded(<range-end helper>(ctx)): " + desc, reason="context-range-end")
                             run.range_end_helper = helper
+                            if helper is not None and pe[1].local:
+                                check_range_end_helper(run, helper)
         if part_name in ("idx_context", "frame_partition"):
             run.ob("%s|range(%s)|last_id-used" % (it.def_, part_name), n_last >= 1, c.sp,
                    "the %s scan honours last_id (one alternative lower bound is built from it)" % part_name, reason="last-id-ignored")
+
+
+ADD_ONE = ("core::num::<impl u128>::saturating_add", "core::num::<impl u128>::wrapping_add", "core::num::<impl u128>::checked_add",
+           "core::num::<impl u128>::overflowing_add")
+
+
+def check_range_end_helper(run, helper):
+    """The exclusive end of a context scan is the key of the NEXT context: bytes of (ctx as u128) + 1.  Without the increment
+    the range [ctx, ctx) is empty and every context-scoped read returns nothing."""
+    hb = run.facts.body(helper)
+    if hb is None:
+        run.missing("%s|body" % helper, "range-end helper has no body")
+        return
+    run.touch(hb)
+    incs = []
+    for c in hb.calls():
+        if c.bb in hb.live_blocks() and c.fn in ADD_ONE and q.const_int(c.arg(1)) == 1 and \
+                any(y[0] == "call" and y[1].fn.endswith("Scru128Id::to_u128") for y in walk(c.arg(0))) or \
+                (c.bb in hb.live_blocks() and c.fn in ADD_ONE and q.const_int(c.arg(1)) == 1 and any(y[0] == "arg" for y in walk(c.arg(0)))):
+            incs.append(("call", c.bb, c.sp))
+    for bi, si, st in hb.stmt_points():
+        if st["k"] == "assign" and bi in hb.live_blocks() and st["rv"].get("bin") in ("Add", "AddWithOverflow", "AddUnchecked"):
+            e = hb.rvalue_expr(st["rv"])
+            if q.const_int(e[3]) == 1 or q.const_int(e[2]) == 1:
+                incs.append(("bin", bi, st["sp"]))
+    rets = [bb for (bb, e, raw) in hb.return_defs()]
+    ok = bool(incs) and bool(rets) and all(any(q.dominated(hb, rb, via_blocks=[i[1]]) or rb == i[1] for i in incs) for rb in rets)
+    uses_ctx = all(any(y[0] == "arg" and y[1] == 1 for y in walk(e)) for (bb, e, raw) in hb.return_defs())
+    run.ob("%s|ctx-plus-one" % helper, ok and uses_ctx, hb.sp,
+           "the range end is built from the context id incremented by exactly one on every path (%d increment site(s))" % len(incs), reason="context-range-end")
 
 
 # ------------------------------------------------------------------ batches (C04 / C05)
@@ -367,44 +399,47 @@ def capture_type_contains(body, e, needle):
     return False
 
 
-def follow_flag_edges(run, body):
-    """True edges of switches on a bool that is true exactly when the read follows: a captured / local bool whose definitions in
-    the parent are `true` under the On / WithHeartbeat arms of a switch on the `follow` option and `false` under Off."""
+def is_follow_flag(run, body, cond):
+    """Is `cond` (in `body`) a bool that is true exactly when the read follows: a captured / local bool whose definitions in the
+    parent are `true` under the On / WithHeartbeat arms of a switch on the `follow` option and `false` under Off?"""
+    c = strip(cond)
+    src = None
+    if c[0] == "field" and c[1][0] == "env":
+        src = capture_origin(run, body, str(c[2]))
+    elif c[0] == "phi":
+        src = (body, c)
+    if src is None:
+        return False
+    pb, e = src
+    e = strip(e)
+    if e[0] != "phi":
+        return False
+    local = e[1]
+    ok = True
+    n = 0
+    for d in pb.defs().get(local, []):
+        if d[0] != "assign" or "use" not in d[3] or "const" not in d[3]["use"] or "bool" not in d[3]["use"]["const"]:
+            ok = False
+            continue
+        val = d[3]["use"]["const"]["bool"]
+        # find a variant switch on the follow option with an edge dominating this definition
+        found = False
+        for sb, ss in pb.switches():
+            if ss["kind"] == "variant" and denotes_field(run, pb, ss["cond"], "follow"):
+                on_edges = [(sb, t, lab) for (t, lab, m) in ss["edges"] if (set(m) if isinstance(m, tuple) else {m}) <= {"On", "WithHeartbeat"} and m]
+                off_edges = [(sb, t, lab) for (t, lab, m) in ss["edges"] if (set(m) if isinstance(m, tuple) else {m}) <= {"Off"} and m]
+                grp = on_edges if val else off_edges
+                if grp and q.dominated(pb, d[1], via_edges=grp):
+                    found = True
+        ok = ok and found
+        n += 1
+    return ok and n >= 2
+
+
+def follow_flag_edges(run, body, value=True):
+    """Edges (true ones by default) of the switches on the follow flag (see is_follow_flag)."""
     out = []
     for bb, si in body.switches():
-        if si["kind"] != "bool":
-            continue
-        c = strip(si["cond"])
-        src = None
-        if c[0] == "field" and c[1][0] == "env":
-            src = capture_origin(run, body, str(c[2]))
-        elif c[0] == "phi":
-            src = (body, c)
-        if src is None:
-            continue
-        pb, e = src
-        e = strip(e)
-        if e[0] != "phi":
-            continue
-        local = e[1]
-        ok = True
-        n = 0
-        for d in pb.defs().get(local, []):
-            if d[0] != "assign" or "use" not in d[3] or "const" not in d[3]["use"] or "bool" not in d[3]["use"]["const"]:
-                ok = False
-                continue
-            val = d[3]["use"]["const"]["bool"]
-            # find a variant switch on the follow option with an edge dominating this definition
-            found = False
-            for sb, ss in pb.switches():
-                if ss["kind"] == "variant" and denotes_field(run, pb, ss["cond"], "follow"):
-                    on_edges = [(sb, t, lab) for (t, lab, m) in ss["edges"] if (set(m) if isinstance(m, tuple) else {m}) <= {"On", "WithHeartbeat"} and m]
-                    off_edges = [(sb, t, lab) for (t, lab, m) in ss["edges"] if (set(m) if isinstance(m, tuple) else {m}) <= {"Off"} and m]
-                    grp = on_edges if val else off_edges
-                    if grp and q.dominated(pb, d[1], via_edges=grp):
-                        found = True
-            ok = ok and found
-            n += 1
-        if ok and n >= 2:
-            out += q.edge_triples(body, bb, lambda m: m is True)
+        if si["kind"] == "bool" and is_follow_flag(run, body, si["cond"]):
+            out += q.edge_triples(body, bb, lambda m: m is value)
     return out
